@@ -24,11 +24,12 @@ func c08LiqSetup(f *c08Fix, ctx sdk.Context) {
 		ClosingFee: c08Dec("0.0"), MinUsdValueLeft: 100000, BidFactor: c08Dec("0.1"), LiquidationPenalty: c08Dec("0.1"), AuctionBonus: c08Dec("0.0")})
 }
 
-// Scripted experiment: the hand-over of a position to the liquidation auction
-// (liquidationsV2 UpdateLockedBorrows) when the lend position has earned rewards, so that
-// AvailableToBorrow > 0 while AmountIn - collateral <= 0.
-func TestC08Liq(t *testing.T) {
-	tr := newTracer(t, "c08l.trace")
+// C08 regression corpus (scripted): the witness of finding C08-F2.  A position is handed over to the
+// liquidation auction (liquidationsV2 UpdateLockedBorrows) after the lend position it hangs on has
+// earned rewards, so that AvailableToBorrow > 0 while AmountIn - collateral <= 0: the lend record is
+// deleted and the published TotalLend keeps the rewards that no position holds any more.
+func TestC08Handover(t *testing.T) {
+	tr := newTracer(t, "c08h.trace")
 	defer tr.close()
 	f, base := c08Setup(t, tr)
 	a := f.a
@@ -36,7 +37,6 @@ func TestC08Liq(t *testing.T) {
 	ctx, _ := base.CacheContext()
 	now := baseTime
 	ctx = ctx.WithBlockTime(now).WithBlockHeight(3)
-	c08LiqSetup(f, ctx)
 	A := f.assets
 	p1 := f.pools[0]
 	var pid uint64
@@ -55,7 +55,7 @@ func TestC08Liq(t *testing.T) {
 		tr.p("op 0 %s %s", line, class)
 		c08Project(f, ctx, tr)
 	}
-	tr.p("case 0 6")
+	tr.p("case 0 9")
 	c08Project(f, ctx, tr)
 	run(fmt.Sprintf("lend 2 %d %d 1000000000 %d %d 0", A[2], A[2], p1, f.app), lendtypes.NewMsgLend(u2, A[2], c(A[2], 1000000000), p1, f.app))
 	run(fmt.Sprintf("lend 1 %d %d 1000000000 %d %d 0", A[1], A[1], p1, f.app), lendtypes.NewMsgLend(u1, A[1], c(A[1], 1000000000), p1, f.app))
@@ -70,42 +70,26 @@ func TestC08Liq(t *testing.T) {
 	}
 	run(fmt.Sprintf("borrow 2 4 %d false %d 1000000000 %d 500000000 0 0 0 0 0 0", p21, f.cassets[0], A[1]),
 		lendtypes.NewMsgBorrow(u2, 4, p21, false, c(f.cassets[0], 1000000000), c(A[1], 500000000)))
-	// a year passes; user 1 collects rewards on its asset-2 position (id 2)
+	// a month passes; user 1 collects rewards on its asset-2 position (id 2)
 	now = now.Add(30 * 24 * time.Hour)
 	ctx = ctx.WithBlockTime(now).WithBlockHeight(4)
-	ipb := c08Ipb(f, ctx, 2)
-	{
-		class, _, _ := execMsg(a, ctx, lendtypes.NewMsgCalculateInterestAndRewards(u1))
-		tr.p("# calc user1 ipb=%s class=%s", ipb, class)
-	}
+	run(fmt.Sprintf("calc 1 0 1 %s", c08Ipb(f, ctx, 2)), lendtypes.NewMsgCalculateInterestAndRewards(u1))
 	l2, _ := k.GetLend(ctx, 2)
 	tr.p("# lend 2 after rewards: amount_in=%s available=%s", l2.AmountIn.Amount, l2.AvailableToBorrow)
 	// user 1 pledges the whole deposited amount
-	{
-		class, xerr, _ := execMsg(a, ctx, lendtypes.NewMsgBorrow(u1, 2, pid, false, c(f.cassets[1], 1000000000), c(A[2], 900000)))
-		tr.p("# borrow class=%s err=%v", class, xerr)
-	}
+	run(fmt.Sprintf("borrow 1 2 %d false %d 1000000000 %d 900000 0 0 0 0 0 0", pid, f.cassets[1], A[2]),
+		lendtypes.NewMsgBorrow(u1, 2, pid, false, c(f.cassets[1], 1000000000), c(A[2], 900000)))
 	// the collateral asset crashes; the position is handed over
 	setPrice(a, ctx, A[1], 100000, true)
-	bs := k.GetAllBorrow(ctx)
-	for _, b := range bs {
-		tr.p("# before: borrow %d lend %d in %s out %s liq %v", b.ID, b.LendingID, b.AmountIn, b.AmountOut, b.IsLiquidated)
-	}
-	for _, p := range []uint64{A[0], A[1], A[2]} {
-		s, _ := k.GetAssetStatsByPoolIDAndAssetID(ctx, p1, p)
-		tr.p("# before: stats asset %d total_lend %s total_borrowed %s lend_ids %v borrow_ids %v", p, s.TotalLend, s.TotalBorrowed, s.LendIds, s.BorrowIds)
-	}
-	msg := &liqV2types.MsgLiquidateInternalKeeperRequest{From: u2, LiqType: 1, Id: 2}
-	class, xerr, _ := execMsg(a, ctx, msg)
-	tr.p("# liquidate class=%s err=%v", class, xerr)
-	for _, b := range k.GetAllBorrow(ctx) {
-		tr.p("# after: borrow %d lend %d in %s out %s liq %v", b.ID, b.LendingID, b.AmountIn, b.AmountOut, b.IsLiquidated)
-	}
+	tr.p("op 0 setprice %d 100000 ok", A[1])
+	c08Project(f, ctx, tr)
+	d, dint := c08LiqEnv(f, ctx, 2)
+	run(fmt.Sprintf("handover 2 %d %s", d, dint), &liqV2types.MsgLiquidateInternalKeeperRequest{From: u2, LiqType: 1, Id: 2})
 	for _, l := range k.GetAllLend(ctx) {
 		tr.p("# after: lend %d asset %d amount_in %s available %s", l.ID, l.AssetID, l.AmountIn.Amount, l.AvailableToBorrow)
 	}
 	for _, p := range []uint64{A[0], A[1], A[2]} {
-		s, _ := k.GetAssetStatsByPoolIDAndAssetID(ctx, p1, p)
-		tr.p("# after: stats asset %d total_lend %s total_borrowed %s lend_ids %v borrow_ids %v", p, s.TotalLend, s.TotalBorrowed, s.LendIds, s.BorrowIds)
+		st, _ := k.GetAssetStatsByPoolIDAndAssetID(ctx, p1, p)
+		tr.p("# after: stats asset %d total_lend %s total_borrowed %s lend_ids %v borrow_ids %v", p, st.TotalLend, st.TotalBorrowed, st.LendIds, st.BorrowIds)
 	}
 }
